@@ -420,6 +420,8 @@ ViewFail(S, e) ==
                  \cup Chk(Moved(S, e) <= MoveBound(S, e), "C20", "relocated_too_many")
               ELSE {})
         \cup Chk(ViewOwned(S, e.v) \subseteq DropIds(e), IF vw.kind = "drain" THEN "C03,C09" ELSE "C03", "leak")
+        \cup \* exactly the elements not handed out are destroyed: never one the caller already received
+             Chk(DropIds(e) \subseteq ViewOwned(S, e.v), IF vw.kind = "drain" THEN "C03,C09" ELSE "C03,C08", "destroyed_element_outside_window")
       [] OTHER -> {}
 
 \* leaking a drain (C10)
@@ -507,6 +509,40 @@ CompareFail(S, e) ==
       [] OTHER -> {}
 
 (***************************************************************************)
+(* Byte-stream I/O on byte buffers (C14), through std::io or the           *)
+(* embedded-io / embedded-io-async traits (C16; e.acc names the family).   *)
+(* Elements are plain bytes: no identity, no ledger.                       *)
+(***************************************************************************)
+IsPrefix(p, s) == Len(p) <= Len(s) /\ p = SubSeq(s, 1, Len(p))
+IoProps(e) == IF e.acc = "std" \/ e.acc = "" THEN "C14" ELSE "C16"
+ByteFail(S, e) ==
+    LET seq == BufSeq(S, e.h)  cap == CapOf(S, e)  n == Len(seq)  pr == IoProps(e)  ps == e.post.seq IN
+    IF e.op = "new" THEN PostFail(S, e, pr) \cup Chk(ps = <<>>, pr, "new_not_empty")
+    ELSE IF e.op = "poison" THEN Chk(ps = seq, pr, "contents")
+    ELSE
+         Chk(~e.unw, "C11", "unexpected_panic") \cup Chk(~e.unw, pr, "unexpected_panic")
+    \cup Chk(e.ret.k # "err", pr, "io_error")
+    \cup Chk(~e.ret.b, "C16", "future_pending")
+    \cup PostFail(S, e, pr)
+    \cup (IF e.unw THEN {} ELSE
+          CASE e.op = "write" ->
+                  Chk(e.ret.k = "n" /\ e.ret.n = Len(e.vals), pr, "write_count")
+             \cup Chk(ps = LastN(seq \o e.vals, cap), pr, "contents")
+            [] e.op = "flush" -> Chk(e.ret.k = "ok", pr, "flush") \cup Chk(ps = seq, pr, "contents")
+            [] e.op = "read" ->
+                  LET k == Min(e.i, n) IN
+                  Chk(e.ret.k = "n" /\ e.ret.n = k, pr, "read_count")
+             \cup Chk(e.ret.ids = Take(seq, k), pr, "read_bytes")
+             \cup Chk(\A j \in DOMAIN e.ret.ids2 : e.ret.ids2[j] = 238, pr, "read_wrote_past_count")
+             \cup Chk(ps = DropN(seq, k), pr, "contents")
+            [] e.op = "fill_buf" ->
+                  Chk(e.ret.k = "ids" /\ IsPrefix(e.ret.ids, seq) /\ (n > 0 => Len(e.ret.ids) > 0), pr, "fill_buf")
+             \cup Chk(~e.post.obs \/ e.ret.k # "ids" \/ IsPrefix(e.ret.slots, e.post.slots), pr, "fill_buf_address")
+             \cup Chk(ps = seq, pr, "contents")
+            [] e.op = "consume" -> Chk(e.ret.k = "unit", pr, "consume") \cup Chk(ps = DropN(seq, Min(e.i, n)), pr, "contents")
+            [] OTHER -> {})
+
+(***************************************************************************)
 (* End of a scenario: the harness has released everything; every element   *)
 (* ever created has been destroyed exactly once, except permitted leaks.   *)
 (***************************************************************************)
@@ -525,6 +561,7 @@ EndFail(S) ==
 Fail(S, e) ==
     IF e.e = "begin" THEN {}
     ELSE IF e.e = "end" THEN EndFail(S)
+    ELSE IF e.ty = "b" THEN GenericFail(S, e) \cup ByteFail(S, e)
     ELSE GenericFail(S, e) \cup
          (IF e.inj THEN FaultFail(S, e)
           ELSE IF e.unw THEN PanicFail(S, e)
